@@ -560,8 +560,15 @@ func runC13RefTCP(c *core.Ctx) {
 				c.Failf("harness/c13-aux", "the first frame of the auxiliary stream was not delivered: n=%d err=%v", n, rerr)
 				return pc, err
 			}
-			aux.Peer().FailWriteDeadlines(errors.New("injected: SetWriteDeadline fails on this stream"))
-			c.Fault("stream-set-write-deadline-fails")
+			if t.Bias(1, 2, "aux-refuses-clearing-too") {
+				// the stream refuses the call altogether (arming and clearing): the healthy streams the mux walks
+				// after it must still get their deadline armed and, above all, taken back
+				aux.Peer().FailAllWriteDeadlineCalls(errors.New("injected: SetWriteDeadline fails on this stream"))
+				c.Fault("stream-refuses-every-write-deadline-call")
+			} else {
+				aux.Peer().FailWriteDeadlines(errors.New("injected: SetWriteDeadline fails on this stream"))
+				c.Fault("stream-set-write-deadline-fails")
+			}
 			return pc, err
 		},
 		inbound: func(tag string) []byte {
